@@ -197,6 +197,11 @@ def ctorStep : List String → Option String
     match variablesOf va with
     | none => some "err"
     | some vs => some s!"vars={if vs.isEmpty then "_" else ",".intercalate vs} {fmtShapes (discreteShapes vs)}"
+  | ["ctorvars", pd] => do
+    let pd ← parseOptNat (if pd = "None" then "-" else pd)
+    match defaultVariables pd with
+    | none => some "err"
+    | some vs => some (if vs.isEmpty then "_" else ",".intercalate vs)
   | ["defgeom", k, sh] => do
     let sh ← parseNatList sh
     match k with
@@ -211,6 +216,7 @@ def step : List String → String
   | "ctorimg" :: r => (ctorStep ("ctorimg" :: r)).getD "bad-op"
   | "ctordisc" :: r => (ctorStep ("ctordisc" :: r)).getD "bad-op"
   | "defgeom" :: r => (ctorStep ("defgeom" :: r)).getD "bad-op"
+  | "ctorvars" :: r => (ctorStep ("ctorvars" :: r)).getD "bad-op"
   | ["klhist", cs, τ, nm, n0, ops] =>
     match parseVec cs, parseRat τ, parseOptNat nm, parseOptNat n0 with
     | some c, some τ, some nm, some n0 =>
@@ -238,6 +244,15 @@ def step : List String → String
   | ["map", gs, op, sh, da] =>
     match parseGeom gs, parseArr sh da with
     | some (g, true), some x =>
+      -- a (top-level) StepExpansion is run as the object model `StepObj` (the code's `n_steps = 0` branch;
+      -- equal to `Geom.step` for `n_steps ≠ 0`: `step_obj_fresh_par2fun/fun2par`)
+      let so : Option StepObj := match g with
+        | .step grid bs s pr => StepObj.init? grid bs s (some pr)
+        | _ => none
+      match op, so with
+      | "par2fun", some o => (match o.par2fun x with | some y => fmtArr y | none => "raise")
+      | "fun2par", some o => (match o.fun2par x with | .ok y => fmtArr y | .error e => e)
+      | _, _ =>
       match op with
       | "par2fun" => match g.par2fun x with | some y => fmtArr y | none => "raise"
       | "vec2fun" => match g.vec2fun x with | some y => fmtArr y | none => "raise"
